@@ -1,5 +1,5 @@
 # C19 - no external resource unless permitted: the createReader choke point
-CLAIMS = {'entityref': 'IGXMLScanner::scanEntityRef as a path gate over every outcome of its callees, arbitrary expansion counter and limit: external reader only for declared parsed external entities with the disable flag passed through; every expansion counted under a security manager and EntityExpansionLimitExceeded exactly when the count passes the limit; unparsed/recursive/undeclared/standalone errors',
+CLAIMS = {'entityref_dg': 'as entityref for DGXMLScanner::scanEntityRef (the DTD-only scanner has its own copy)', 'entityref': 'IGXMLScanner::scanEntityRef as a path gate over every outcome of its callees, arbitrary expansion counter and limit: external reader only for declared parsed external entities with the disable flag passed through; every expansion counted under a security manager and EntityExpansionLimitExceeded exactly when the count passes the limit; unparsed/recursive/undeclared/standalone errors',
  'createreader_sysid / createreader_base': 'ReaderMgr::createReader(sysId...) and createReader(baseURI, sysId...): resolver first; supplied source replaces the default; '
           'disableDefaultEntityResolution => no file/URL source constructed; conformant mode never falls back to a file; exactly one default source otherwise'}
 ASSUMPTIONS = ['environment cut: XMLURL, XMLUri::normalizeURI, LocalFileInputSource / URLInputSource constructors, inner createReader(InputSource&), getLastExtEntityInfo, XMLString::removeChar',
@@ -16,8 +16,13 @@ HARNESSES = [
       cuts=['_ZN11xercesc_4_09XMLString10sizeToTextE*'],
       cuts_everywhere=['_ZNK11xercesc_4_09ReaderMgr19getCurrentReaderNumEv', '_ZN11xercesc_4_09ReaderMgr7getNameERNS_9XMLBufferE', '_ZN11xercesc_4_09ReaderMgr8getQNameERNS_9XMLBufferEPi', '_ZN11xercesc_4_010DTDGrammar13getEntityDeclEPKDs'],
       unwind=6, timeout={'quick': 900, 'thorough': 1700}, mem_gb=16),
+ dict(name='entityref_dg', entry='harness_entityref', srcs=['C19/entityref.cpp', 'C19/entstubs.cpp', 'C06/nsstubs.cpp'],
+      tus=['internal/DGXMLScanner.cpp', 'validators/DTD/DTDEntityDecl.cpp', 'framework/XMLEntityDecl.cpp', 'framework/XMLBuffer.cpp', 'util/XMLString.cpp'],
+      cuts=['_ZN11xercesc_4_09XMLString10sizeToTextE*'],
+      cuts_everywhere=['_ZNK11xercesc_4_09ReaderMgr19getCurrentReaderNumEv', '_ZN11xercesc_4_09ReaderMgr7getNameERNS_9XMLBufferE', '_ZN11xercesc_4_09ReaderMgr8getQNameERNS_9XMLBufferEPi', '_ZN11xercesc_4_010DTDGrammar13getEntityDeclEPKDs'],
+      defs={'all': {'SCANNER': 'DGXMLScanner'}}, unwind=6, timeout={'quick': 900, 'thorough': 1700}, mem_gb=16),
 ]
 LEVEL_TEXT = ('Path-gate symbolic execution of the real choke point for external resources with the environment cut to recording stubs: for EVERY combination of resolver presence/answers, URL-parsing outcomes and the '
               'configuration flags, no file or URL source constructor is reached unless permitted, the resolver is asked first with the right identifiers, and its source is used instead of the default.')
-LEVEL_NOTE = ('NOT claimed: the gates in front of the choke point inside the multi-thousand-line scanner functions (external-subset loading in scanDocTypeDecl, schemaLocation handling), scanEntityRef of the SG/DG/WF scanners and parameter-entity expansion (IGXMLScanner::scanEntityRef IS covered: harness entityref), '
+LEVEL_NOTE = ('NOT claimed: the gates in front of the choke point inside the multi-thousand-line scanner functions (external-subset loading in scanDocTypeDecl, schemaLocation handling), scanEntityRef of the SG/WF scanners and parameter-entity expansion (IGXMLScanner::scanEntityRef IS covered: harness entityref), '
               'RFC 2396 resolution inside XMLURL/XMLUri, actual file/network effects.')
